@@ -17,7 +17,7 @@ LEVEL_TEXT = (
 
 CHECKS = {
     "C02": dict(
-        rules="R02.1-R02.17",
+        rules="R02.1-R02.18",
         what="every accepting return of find_cache_meta/validate_meta is dominated by a rejecting gate for each required meta field (or its named bypass); SCC freshness is the conjunction of its three tests (truth-table evaluation); State.is_fresh conjuncts; cached errors of fresh modules are replayed; stored and compared values of each gate field come from the same producer; the indirect-dependency visitor reaches every type component; the fast path and the import-cycle path of transitive_dep_hash select and hash the same dependencies; protocol member types (inherited members, setter types) reach the indirect dependencies; the signature of an implicitly called dunder method is recorded for them (known finding); generic callee type variables (known finding); de-duplication scope vs cached lines (known finding); the plugins snapshot is replaced only after process_graph (CFG); only hashed dependencies count as existing when indirect dependencies are patched in; every `Metadata abandoned` test of find_cache_meta looks at the meta (one known finding: plugins)",
         quant="edit histories with a run after every edit, in four store x format configurations",
         technique="CFG must-pass-through with polarity, abstract (truth-table) evaluation of the freshness flag, producer cross-check, component-coverage matrix",
@@ -41,7 +41,7 @@ CHECKS = {
         design="DESIGN.md §4 C04",
     ),
     "C05": dict(
-        rules="R05.1-R05.15",
+        rules="R05.1-R05.16",
         what="every primitive bound to a literal C function name (~380 bindings) has a C declaration in mypyc/lib-rt of matching arity whose parameter/return types are ABI-compatible with the declared RPrimitives; declared error kinds agree with what the C body can return (ERR_NEVER vs `return NULL`, ERR_FALSE vs truth type, ERR_NEG_INT vs signed int; ERR_NEVER vs returning the result of a fallible callee); bindings made through helper functions and literal loops are resolved; in-place operators bound to in-place C APIs; the coerce truth table; the environment link of a nested function survives completion on a condition that consults only what the code following the link consults; result types without a spare error value never declare ERR_MAGIC; the defaults-setup chain searches the whole mro because the declaration is registered on an own-body test; a bound C function returns its error value only after a call that can have set an exception; an operator spelling is bound to the C function carrying that operator's word; loop-inlining specialisers translate the call's other arguments before the loop; pass order of compile_scc_to_ir; both try/finally lowerings reset the pending-return register on the non-return entries; lib-rt never passes an unchecked difference/parameter as a bytes size; sign tests on `index` parameters include 0 on the non-negative side; the str.encode/bytes.decode fast paths accept exactly CPython's aliases",
         quant="programs x argument values x optimisation levels x build modes",
         technique="cross-language table check: Python AST of the primitive registry against clang's JSON AST of lib-rt; CFG ordering of the pass pipeline",
@@ -65,8 +65,8 @@ CHECKS = {
         design="DESIGN.md §4 C07",
     ),
     "C13": dict(
-        rules="R13.1-R13.11",
-        what="blockers never reach the ignore logic; suppressed-by-ignore implies recorded-as-used, only for enabled codes, and nothing else records; decision order of is_error_code_enabled (explicit disable, explicit enable, parent disabled); who may append to the error map; exit status truth table over (message, non-note, blockers, install override) and its data-flow to sys.exit; generators of diagnostics that bypass is_error_code_enabled are guarded by their own code not being disabled (truth table over the guard's atoms); the only-once slot is claimed only by recorded messages; notes next to coded errors carry a code",
+        rules="R13.1-R13.12",
+        what="blockers never reach the ignore logic; suppressed-by-ignore implies recorded-as-used, only for enabled codes, and nothing else records; decision order of is_error_code_enabled (explicit disable, explicit enable, parent disabled); who may append to the error map; exit status truth table over (message, non-note, blockers, install override) and its data-flow to sys.exit; generators of diagnostics that bypass is_error_code_enabled are guarded by their own code not being disabled (truth table over the guard's atoms); the only-once slot is claimed only by recorded messages; notes next to coded errors carry a code; the ErrorWatcher stack sees every error before any code/ignore decision",
         quant="programs x ignore placements x code selections",
         technique="CFG must-pass / reachability, guard chains, who-may-call, abstract evaluation of the exit-status assignments",
         note="Exactness of the delta for every program (origin spans, duplicate removal, note attachment) is value-level and not decided.",
@@ -81,16 +81,16 @@ CHECKS = {
         design="DESIGN.md §4 C08",
     ),
     "C14": dict(
-        rules="R14.1-R14.10",
-        what="both front ends can construct the same set of AST node classes; per node class the semantic attributes set at construction agree (branch-sensitive tracking); Errors.report clamps end positions before building ErrorInfo; every statement list that becomes a block went through overload merging in both front ends and the native shortcut rests on a monotone function counter; parse-time message_registry diagnostics of the default parser are reported by the native parser too; the two parsers of Arg(...) constructors report each diagnostic under the same tests; folded f-string text lands in a kept node; a diagnostic both front ends report under a count test is reported for the same counts; the shared parameter-list helpers (sharedparse.*, nodes.check_param_names) are applied by both front ends",
+        rules="R14.1-R14.11",
+        what="both front ends can construct the same set of AST node classes; per node class the semantic attributes set at construction agree (branch-sensitive tracking); Errors.report clamps end positions before building ErrorInfo; every statement list that becomes a block went through overload merging in both front ends and the native shortcut rests on a monotone function counter; parse-time message_registry diagnostics of the default parser are reported by the native parser too; the two parsers of Arg(...) constructors report each diagnostic under the same tests; folded f-string text lands in a kept node; a diagnostic both front ends report under a count test is reported for the same counts; the shared parameter-list helpers (sharedparse.*, nodes.check_param_names) are applied by both front ends; the conditional-overload helpers of both front ends thread the overload name through their recursion",
         quant="source files without type comments and their corruptions",
         technique="sibling cross-check of the two parser front ends over the resolved constructors; CFG must-pass for the position clamps",
         note="Equality of diagnostics between the parsers and columns lying inside the line are value-level and not decided.",
         design="DESIGN.md §4 C14",
     ),
     "C09": dict(
-        rules="R09.0-R09.7",
-        what="the options snapshot is computed from every name in OPTIONS_AFFECTING_CACHE; every Options attribute read in the RTA call-graph zone of the cached computation is keyed, keyed separately, not settable, or tabled; print-time options are not read while rendering cached tuples; cache directory derives from both components of python_version; the target options that decide suppression of an import are the ones dep_import_options records; nothing inside the build assigns attributes of Options objects and no private derived state survives apply_changes; ChainedPlugin's data-collecting methods consult every plugin",
+        rules="R09.0-R09.8",
+        what="the options snapshot is computed from every name in OPTIONS_AFFECTING_CACHE; every Options attribute read in the RTA call-graph zone of the cached computation is keyed, keyed separately, not settable, or tabled; print-time options are not read while rendering cached tuples; cache directory derives from both components of python_version; the target options that decide suppression of an import are the ones dep_import_options records; nothing inside the build assigns attributes of Options objects and no private derived state survives apply_changes; ChainedPlugin's data-collecting methods consult every plugin; a module's plugin configuration data is hashed into its interface hash",
         quant="option toggles between runs",
         technique="who-may-read rule over an RTA call graph with annotation-driven receiver typing; constant evaluation of the key tables",
         note="Trusted: receiver typing and call resolution of sa/resolve.py + sa/callgraph.py (name-based fallback for unknown receivers); the ZONE_CUT list and tables/R09.1.json (each entry one construct with a reason). Assumes C02's gates reject on snapshot mismatch (checked by R02.1).",
@@ -105,23 +105,23 @@ CHECKS = {
         design="DESIGN.md §4 C10",
     ),
     "C11": dict(
-        rules="R11.1-R11.16",
-        what="wire grammar of write equals wire grammar of read for 46 serializer classes and the helper pairs, down to librt primitives; field and flag label alignment; tag table integrity and dispatcher exhaustiveness; JSON key/attribute agreement and JSON==binary attribute sets; count/emit filter agreement; sorted iteration in interface serializers; order discipline (only sets may be written sorted); __eq__ fields and declared attributes covered by serialization; fix-up covers every by-reference field; optional fields are encoded by an identity test against None; the derived fields of a special alias are rebuilt together after load; verbatim JSON stores hold only JSON-representable declared types; what fix-up establishes on loaded functions a fresh analysis establishes too",
+        rules="R11.1-R11.17",
+        what="wire grammar of write equals wire grammar of read for 46 serializer classes and the helper pairs, down to librt primitives; field and flag label alignment; tag table integrity and dispatcher exhaustiveness; JSON key/attribute agreement and JSON==binary attribute sets; count/emit filter agreement; sorted iteration in interface serializers; order discipline (only sets may be written sorted); __eq__ fields and declared attributes covered by serialization; fix-up covers every by-reference field; optional fields are encoded by an identity test against None; the derived fields of a special alias are rebuilt together after load; verbatim JSON stores hold only JSON-representable declared types; what fix-up establishes on loaded functions a fresh analysis establishes too; every type TypeInfo's loaders re-create is handed to the type fixer",
         quant="symbols, types and flag combinations of all modules",
         technique="wire-grammar extraction (abstract interpretation of serializer bodies in evaluation order) and structural term comparison; sibling cross-checks",
         note="Trusted base: the librt.internal primitive pairs round-trip their argument; extract_symbol consumes one tagged object; CPython evaluation order. Value-level inverses (ARG_KINDS[int(x.value)], bytes.fromhex(x.hex())) are not decided. One known finding (symbol tables serialized in sorted order) is listed in known_findings.json.",
         design="DESIGN.md §4 C11",
     ),
     "C20": dict(
-        rules="R20.1, R20.3-R20.10, R12.3, R20.2",
-        what="every loop that re-queues deferred work has a per-iteration counter compared with a constant bound that leaves the loop; type-checker deferral limited by pass_num < last_pass; partial arithmetic operators of the constant folders guarded against every failure precondition; placeholder-triggered deferrals are conditional on not being in the final iteration (defer() asserts it); constant-valued index variables are range-checked against len() of the subscripted sequence; the guard before `assert add_symbol(...)` in push_type_args recognises every type-parameter node kind and rejected parameters are not returned; no branch reports an `internal error` message as its planned outcome; a saved list index accounts for later deletions; pop() on a set built in the function is dominated by a non-emptiness test",
+        rules="R20.1, R20.3-R20.12, R12.3, R20.2",
+        what="every loop that re-queues deferred work has a per-iteration counter compared with a constant bound that leaves the loop; type-checker deferral limited by pass_num < last_pass; partial arithmetic operators of the constant folders guarded against every failure precondition; placeholder-triggered deferrals are conditional on not being in the final iteration (defer() asserts it); constant-valued index variables are range-checked against len() of the subscripted sequence; the guard before `assert add_symbol(...)` in push_type_args recognises every type-parameter node kind and rejected parameters are not returned; no branch reports an `internal error` message as its planned outcome; a saved list index accounts for later deletions; pop() on a set built in the function is dominated by a non-emptiness test; names from configuration are not unchecked keys of the error-code registry; Instance asserts after is_subtype come after the TypeVar/union/Any cases",
         quant="input programs",
         technique="CFG cycle/must-pass queries for counter-bounded fix-points; guard-chain analysis of partial operators",
         note="Absence of crashes for all inputs is not decided; R20.2 is an inventory (evidence only).",
         design="DESIGN.md §4 C20",
     ),
     "C12": dict(
-        rules="R12.1-R12.7",
+        rules="R12.1-R12.8",
         what="operator spelling vs operator applied in the constant folders and IR opcode selection; operator tables vs the language reference; guard completeness of every partial operator in mypy/constant_fold.py and mypyc/irbuild/constant_fold.py; argument-kind predicates of call binding; None-or-constant values of the compile-time evaluators are never tested by truthiness; a keyword or TypedDict key never binds to the *args formal of that name; the (*args, **kwargs) duplicate exemption consults the actual types",
         quant="signatures, class hierarchies and constant expressions",
         technique="syntax-directed guard-chain analysis and table comparison against the language reference",
@@ -129,24 +129,24 @@ CHECKS = {
         design="DESIGN.md §4 C12",
     ),
     "C15": dict(
-        rules="R15.0-R15.9",
-        what="int/float/fixed-width primitive bindings agree with their C signatures and error kinds; a primitive whose result type has no spare error value (error_overlap) never declares plain ERR_MAGIC; each operator spelling of int/float primitives is bound to that operator's C function; every raw C division/modulo IntOp is emitted under a zero(-1)-excluding guard; every Truncate of a possibly out-of-range value is dominated by the two-sided range check; the inline fast path of tagged-int multiplication cannot wrap under its guard (interval arithmetic on the guard's constant bounds, from clang's expression trees); a boxed int is built only under a does-not-fit test; raw C shifts of native ints are emitted only after a count check (known finding); literal arguments of explicit conversions are not folded by masking (known finding)",
+        rules="R15.0-R15.10",
+        what="int/float/fixed-width primitive bindings agree with their C signatures and error kinds; a primitive whose result type has no spare error value (error_overlap) never declares plain ERR_MAGIC; each operator spelling of int/float primitives is bound to that operator's C function; every raw C division/modulo IntOp is emitted under a zero(-1)-excluding guard; every Truncate of a possibly out-of-range value is dominated by the two-sided range check; the inline fast path of tagged-int multiplication cannot wrap under its guard (interval arithmetic on the guard's constant bounds, from clang's expression trees); a boxed int is built only under a does-not-fit test; raw C shifts of native ints are emitted only after a count check (known finding); literal arguments of explicit conversions are not folded by masking (known finding); a floored quotient is snapped to the nearest integer (float //)",
         quant="operator x operand type x boundary values",
         technique="cross-language table check against clang's AST; guard-chain and CFG dominance checks in the IR builder",
         note="Apart from R15.3 (one interval argument over two constants) no value is computed: bit-exactness of the CPyTagged_* helpers needs operand enumeration or a solver (other technique families). R15.3 assumes LP64.",
         design="DESIGN.md §4 C15",
     ),
     "C16": dict(
-        rules="R16.1-R16.7",
-        what="exception containment of the serve loop by may-raise summaries; status-file removal on every CFG exit of serve; per-connection reset of IPCServer framing state; frame consumption order in frame_from_buffer and writer/reader header agreement; request keys are membership-tested, **data reaches a command only after signature binding, a rejected stop does not exit",
+        rules="R16.1-R16.9",
+        what="exception containment of the serve loop by may-raise summaries; status-file removal on every CFG exit of serve; per-connection reset of IPCServer framing state; frame consumption order in frame_from_buffer and writer/reader header agreement; request keys are membership-tested, **data reaches a command only after signature binding, a rejected stop does not exit; rejected requests flush the file system cache; handlers do not assert on request data",
         quant="client behaviours and stream segmentations",
         technique="interprocedural may-raise summaries + CFG must-pass-through / pairing queries",
         note="Trusted: the frozen standard-library may-raise table (sa/raises.py); POSIX branches only. Byte-level reassembly for every chunking is value-level and not decided.",
         design="DESIGN.md §4 C16",
     ),
     "C17": dict(
-        rules="R17.1-R17.9",
-        what="command-line dests vs Options attributes; converter completeness for documented config keys; ini/toml converter table agreement and inversion prefixes; inline comments and per-module sections routed through parse_section; each section applied by its own apply_changes call; precedence orderings by construction (config file before command line, structured before unstructured sections, inline on top); the command line's --strict step is conditional only on the command-line namespace",
+        rules="R17.1-R17.10",
+        what="command-line dests vs Options attributes; converter completeness for documented config keys; ini/toml converter table agreement and inversion prefixes; inline comments and per-module sections routed through parse_section; each section applied by its own apply_changes call; precedence orderings by construction (config file before command line, structured before unstructured sections, inline on top); the command line's --strict step is conditional only on the command-line namespace; every list option that apply_changes replays is reset by each section",
         quant="options x sources x conflicting pairs",
         technique="table/AST cross-check of main.define_options, config_parser tables, Options.__init__ and docs/source/config_file.rst",
         note="The precedence algorithm among sections is value-level and not decided. R17.5 (docs wording) is informational only.",
@@ -155,8 +155,8 @@ CHECKS = {
 }
 
 CHECKS["C18"] = dict(
-    rules="R18.1-R18.4",
-    what="graph insertion discipline of build.load_graph: every insertion of a State is dominated by the clash test for its kind (module id already in the graph; file already seen under another id), the clash branch reports a blocker and raises, inserted paths are recorded; find_sources and modulefinder share one suffix table with the stub suffix first and one package marker",
+    rules="R18.1-R18.5",
+    what="graph insertion discipline of build.load_graph: every insertion of a State is dominated by the clash test for its kind (module id already in the graph; file already seen under another id), the clash branch reports a blocker and raises, inserted paths are recorded; find_sources and modulefinder share one suffix table with the stub suffix first and one package marker; verify_module decides `every containing package has an __init__` level by level, not from the topmost level that has one",
     quant="directory layouts x flag settings x argument orders",
     technique="CFG must-pass / reachability queries over load_graph; constant evaluation and sibling cross-check of the two path-mapping modules' tables",
     note="Only the 'stops with a duplicate-module error' half of the statement has a shape in the code. That the name crawl_up assigns to a file is the name under which FindModuleCache resolves an import to that file is a relation between two algorithms over all directory trees and is not decided.",
@@ -164,8 +164,8 @@ CHECKS["C18"] = dict(
 )
 
 CHECKS["C19"] = dict(
-    rules="R19.1-R19.2",
-    what="definition-kind coverage: every statement kind for which stubgen's DefinitionFinder records a top-level name has an emitting visit method in ASTStubGenerator; the string-producing visitors (AliasPrinter, AnnotationPrinter) return a value on every path of every visit method",
+    rules="R19.1-R19.3",
+    what="definition-kind coverage: every statement kind for which stubgen's DefinitionFinder records a top-level name has an emitting visit method in ASTStubGenerator; the string-producing visitors (AliasPrinter, AnnotationPrinter) return a value on every path of every visit method; decorators collected for a function are cleared on every path on which visit_func_def does not emit it",
     quant="generated modules x definition kinds x modes",
     technique="sibling cross-check of the two visitors' method sets with reachability of the emission call inside the generator class; CFG must-pass (every path returns a value) over the printers' methods",
     note="Syntactic validity of the emitted text, its self-consistency under type checking, agreement with the runtime module (stubtest) and preservation of the spelled annotations are properties of the output per input module and are not decided. The claim is two necessary conditions of 'every public definition appears' and 'the stub is valid text'.",
